@@ -95,7 +95,7 @@ CLAIMS = {
         category="proof",
         text="Deductive proof of the sequential Ask clauses: AskHub.Deliver reports success only after the rendezvous send (the answer is the one the serving callback wrote into this request) and n == 0 with every error; "
              "a closed hub always carries a non-nil error, so Ask / ServeAsk on a closed swarm fail; p2pmux dispatches an ask only after it demultiplexed without error and with exactly the demultiplexed body; "
-             "vswarm turns negative handler results into errors and refuses oversize asks; mbapp and sshswarm return an error, not a truncated success, when the response does not fit.",
+             "vswarm turns negative handler results into errors and refuses oversize asks; mbapp and sshswarm return an error, not a truncated success, when the response does not fit; the serving side of sshswarm (Conn.loop) answers ok=true only with the bytes a handler produced (a request the hub refused, or a negative result, is answered ok=false).",
         design_ref="DESIGN.md section 5, C11 and section 10",
         note=TRUST + "Matching of responses to concurrent asks by id (mbapp map, quic streams) and timing are not covered.",
     ),
@@ -103,9 +103,10 @@ CLAIMS = {
         category="proof",
         text="Deductive proof of: closed => stored error non-nil (both hubs, also for Close() without a reason); every blocking select in TellHub.Receive/Deliver and AskHub.ServeAsk/Deliver has a receive case on the hub's closed channel (wake-on-close obligation per select); "
              "Receive/ServeAsk called on a closed hub return a non-nil error; the bounded queue's Receive has the same wake obligations. multiswarm: Close closes the tell hub and, for a swarm built by NewSecureAsk, the ask hub, "
-             "whatever the inner swarms' Close calls return, and NewSecureAsk hands the composite the multiSwarm that references its asker.",
+             "whatever the inner swarms' Close calls return, and NewSecureAsk hands the composite the multiSwarm that references its asker. Close of mbapp.Swarm, p2pmux's channel swarm, p2pkeswarm, quicswarm, sshswarm and vswarm (through Realm.Drop) "
+             "closes every hub / queue the swarm owns whatever the inner swarm, listener or transport does; Queue.Close closes the queue's closed signal; fragswarm's receive loops end by closing its tell hub.",
         design_ref="DESIGN.md section 5, C12 and section 10",
-        note=TRUST + "'No callback after Close returned', goroutine release and the Close methods of the other composite swarms (everything but multiswarm) are not decided.",
+        note=TRUST + "'No callback after Close returned', goroutine release, the closing of inner swarms, and that fragswarm's receive loops do end after Close (they depend on the inner swarm's Receive failing) are not decided. Library calls inside the Close methods are assumed to keep the hubs' invariants (listed per call in the evidence).",
     ),
     "C13": dict(
         category="proof",
@@ -141,9 +142,9 @@ CLAIMS = {
     "C18": dict(
         category="proof",
         text="Deductive proof of the kademlia Cache as a bounded map over an abstract view: bucket get/put/delete/expire/evict/update and Cache.bucketIndex/Get/Delete/evict/Expire/Update keep count == sum of bucket sizes <= max, locus never stored, "
-             "Get after Put returns the stored entry, Delete/Expire remove only what they should, Expire leaves no expired entry in any bucket whose earliest-expiry shortcut has passed (every bucket is considered), and eviction removes from the farthest non-empty bucket.",
+             "Get after Put returns the stored entry, Delete/Expire remove only what they should, every bucket's earliest-expiry shortcut stays a lower bound of the expiry times it holds (preserved by every bucket and cache operation), so Expire leaves no expired entry in any bucket, and eviction removes from the farthest non-empty bucket.",
         design_ref="DESIGN.md section 5, C18",
-        note=TRUST + "Map model (domain/value/cardinality arrays, range yields each key once) and time.Time as an integer instant are assumptions. Some quantified postconditions of Cache.Update are unclaimed.",
+        note=TRUST + "Map model (domain/value/cardinality arrays, range yields each key once) and time.Time as an integer instant are assumptions. The step obligations of the bucket-creating loop in Cache.Update (append of a new bucket) are undecided and unclaimed.",
     ),
     "C20": dict(
         category="proof",
